@@ -46,6 +46,22 @@ CFG = {
         "Swat4.C12.lost_if_dies",
         "Swat4.C12.witnessOne_init",
         "Swat4.C12.lost_if_dies_done",
+        "Swat4.C12.never_queued_explicit",
+        "Swat4.C12.queued_otherwise",
+        "Swat4.C12.implicit_ready_always_queued",
+        "Swat4.C12.pastExpiry_init",
+        "Swat4.C12.implicit_ready_past_expiry_is_queued",
+        "Swat4.C12.implicit_ready_past_expiry_dropped_witness",
+        "Swat4.C12.implicit_ready_past_expiry_never_delivered",
+        "Swat4.C12.ready_eq_expiry_only_at_instant",
+        "Swat4.C12.ready_eq_expiry_delivered_witness",
+        "Swat4.C12.popMany_command_progress",
+        "Swat4.C12.popMany_own_commands_bounded",
+        "Swat4.C12.live_step_executes",
+        "Swat4.C12.fed_init",
+        "Swat4.C12.popMany_fed_witness",
+        "Swat4.C12.never_queued_explicit_sys",
+        "Swat4.C12.ready_past_expiry_only_implicit",
     ],
     "shards": (4, 16),
     "nontrivial": _nontrivial,
@@ -72,7 +88,17 @@ CFG = {
                 "ready time of its enqueue), at_most_once, batch_size (<= n at every pc), not_early (monotone clock: ready <= clock at the pop "
                 "batch), not_late (returned => no expiry or expiry >= clock at the pop batch; otherwise counted), no_leak_run / no_leak_finish "
                 "(C10 invariant at every reachable state), conservation_final / timing_final (same in the state after the driver's completion "
-                "phase), never_queued, enqueue_one_batch, enqueue_uses_fresh, pop_nonpositive. Exactly one consumer: delivered_if_live / "
+                "phase), never_queued, enqueue_one_batch, enqueue_uses_fresh, pop_nonpositive. The clause 'a probe whose ready time is not earlier than its expiry is never queued' "
+                "is FALSE of model and code for an implicit ready time: never_queued_explicit (the call issues no command IFF both bounds are explicit and after >= before), "
+                "never_queued_explicit_sys / ready_past_expiry_only_implicit (every interleaving: each accepted enqueue record is attributed to its producing call enqueue probe after expires, and an explicit after is the record's ready time and strictly before an explicit expiry; "
+                "hence a queued probe with ready >= expiry can only stem from an implicit ready time), "
+                "implicit_ready_always_queued / implicit_ready_past_expiry_is_queued (enqueue p none (some b) is queued whatever the clock, e.g. clock 100 >= b 50: checked witness; probes.go tests "
+                "!after.IsZero() first and reads clock.Now() afterwards), implicit_ready_past_expiry_never_delivered (ready > expiry: every pop record of that id is counted expired, "
+                "handed to nobody; from not_early + not_late, monotone clock), ready_eq_expiry_only_at_instant / ready_eq_expiry_delivered_witness (ready = expiry: queued AND delivered, "
+                "exactly at clock = expiry, since isItemExpired is strict). Termination of PopMany under interference: there is no retry loop, but rounds repeat while only expired entries are found; "
+                "popMany_command_progress (every command of a live call raises a potential, for every store/clock), popMany_own_commands_bounded (in every interleaving the commands a PopMany n "
+                "executes are at most 2*(n + expired entries it dropped) + 2), live_step_executes, popMany_fed_witness (no bound in n alone: fed one expired entry per round a PopMany 1 executes 7 commands). "
+                "Exactly one consumer: delivered_if_live / "
                 "delivered_if_live_final (every accepted enqueue is either still queued, or in exactly one pop record of exactly one started PopMany "
                 "consumer with the same probe/expiry/ready time; if that record is unexpired at the clock of its pop batch it was appended to the "
                 "batch, its id occurs exactly once among all returned records - once in that consumer's, in no other's - the consumer holds the "
